@@ -512,11 +512,11 @@ def k_render_field(R, maxq, props):
                     # (serde: "missing field"); a nullable ID must accept absence
                     if code is not None and code.startswith('O'):
                         claims['C16:absent-is-none'] = z3.BoolVal('default' in merged)
+                else:
+                    claims['C16:all-ids'] = z3.Not(is_id)
                 # `default` turns a missing key into a default value: only a nullable field may have it
                 if 'default' in merged:
                     claims['C03:default-only-on-nullable'] = z3.BoolVal(code is not None and (code.startswith('O') or code.startswith('BO')))
-                else:
-                    claims['C16:all-ids'] = z3.Not(is_id)
             env = dict(qs=qs, gname=gname, rname=rname, ftype=ftype, reason=reason, has_g=has_g, dep1=dep1, dep2=dep2, flatten=flatten, boxed=boxed,
                        skip=skip, strat=strat, has_strat=has_strat, req=req, strategies=strategies)
             by_prop = {}
@@ -1941,3 +1941,208 @@ def abstract_model(m, env):
     return dict(parent='interface' if ev(env['pkind']).as_long() == 2 else 'union', selections=sels, F1_on=on(env['fr_on'][0]), F2_on=on(env['fr_on'][1]),
                 implements=[z3.is_true(ev(x)) for x in env['sv']['impl']], members=[z3.is_true(ev(x)) for x in env['sv']['memb']],
                 fragments_other_variant=z3.is_true(ev(env['other'])))
+
+
+# ---------------------------------------------------------------- C06: query::resolve end to end on document templates
+
+def k_resolve_document(R):
+    """`query::resolve(schema, document)` on the template
+         query Q { a { __typename ...F } b { __typename ...F } }   fragment F on T { __typename }
+    where the types of `a`, `b` and the type named T are symbolic composites (two objects, an interface, a union with
+    symbolic implements / membership).  Ok => every spread site can apply.  This covers the *driver* (which selections
+    get validated), not only the validator."""
+    f = R.fn('resolve', contains=None) if False else None
+    cands_fn = [fn for n, fn in R.L.funcs.items() if (n == 'resolve' or n.endswith('::resolve')) and len(fn.params) == 2 and 'Schema' in fn.params[0][1]]
+    if len(cands_fn) != 1:
+        raise V.Unsupported(f'query::resolve not found ({[x.name for x in cands_fn]})')
+    f = cands_fn[0]
+    out = []
+    holder = {}
+
+    def setup(st, B):
+        schema0, sv = abstract_schema(B, st, 'rd_')
+        pa, ca = sym_composite(B, st, 'rd_a')
+        pb, cb = sym_composite(B, st, 'rd_b')
+        ts, ct = sym_composite(B, st, 'rd_t')
+        holder.update(sv=sv, ca=ca, cb=cb, ct=ct)
+        names = R.L.structs['Schema']
+        fs = list(schema0.fields)
+        scal = B.variant('TypeId', 'Scalar', B.newtype('ScalarId', bv(0, 64)))
+        mkf = lambda nm, ty, parent: B.struct('StoredField', name=StrV(nm), type=B.struct('StoredFieldType', id=ty, qualifiers=VecV(())), parent=parent, deprecation=none())
+        pq = B.variant('StoredFieldParent', 'Object', B.newtype('ObjectId', bv(2, 32)))
+        fields = [mkf('a', pa, pq), mkf('b', pb, pq)]
+        fs[names.index('stored_fields')] = VecV(fields)
+        objs = list(fs[names.index('stored_objects')].items)
+        objs.append(B.struct('StoredObject', name=StrV('Query'), fields=VecV([B.newtype('StoredFieldId', bv(0, 64)), B.newtype('StoredFieldId', bv(1, 64))]), implements_interfaces=VecV(())))
+        fs[names.index('stored_objects')] = VecV(objs)
+        fs[names.index('names')] = B.btreemap([(StrV('T'), ts)])
+        fs[names.index('query_type')] = some(B.newtype('ObjectId', bv(2, 32)))
+        schema = Agg(None, fs, 'Schema')
+        pos = Agg(None, [bv(0, 64), bv(0, 64)])
+        sset = lambda items: B.struct('query::SelectionSet', span=Agg(None, [pos, pos]), items=VecV(items))
+        fld = lambda name, items: B.variant('query::Selection', 'Field', B.struct('query::Field', position=pos, alias=none(), name=StrV(name), arguments=VecV(()), directives=VecV(()), selection_set=sset(items)))
+        spread = lambda name: B.variant('query::Selection', 'FragmentSpread', B.struct('query::FragmentSpread', position=pos, fragment_name=StrV(name), directives=VecV(())))
+        op = B.variant('query::Definition', 'Operation', B.variant('query::OperationDefinition', 'Query',
+                       B.struct('query::Query', position=pos, name=some(StrV('Q')), variable_definitions=VecV(()), directives=VecV(()),
+                                selection_set=sset([fld('a', [fld('__typename', []), spread('F')]), fld('b', [fld('__typename', []), spread('F')])]))))
+        frag = B.variant('query::Definition', 'Fragment', B.struct('query::FragmentDefinition', position=pos, name=StrV('F'), type_condition=B.variant('query::TypeCondition', 'On', StrV('T')),
+                                                                  directives=VecV(()), selection_set=sset([fld('__typename', [])])))
+        doc = B.struct('query::Document', definitions=VecV([op, frag]))
+        R.vm.push_call(st, f, [B.cell(schema), B.cell(doc)], None, None)
+    outs, _ = R.explore('query::resolve(template)', setup)
+    sv, ca, cb, ct = holder.get('sv'), holder.get('ca'), holder.get('cb'), holder.get('ct')
+    names = ['O0', 'O1', 'I0', 'U0']
+    for o in outs:
+        if o.kind != 'return':
+            if o.kind not in ('panic',):
+                R.inconclusive.append(f'resolve: {o.kind}: {o.msg}')
+            continue
+        v = o.value
+        if isinstance(v, SymEnum):
+            R.inconclusive.append('resolve: symbolic Result')
+            continue
+        if v.variant == 0:
+            ok_a = z3.Or(ca == ct, *[z3.And(possible(ca, ob, sv), possible(ct, ob, sv)) for ob in range(2)])
+            ok_b = z3.Or(cb == ct, *[z3.And(possible(cb, ob, sv), possible(ct, ob, sv)) for ob in range(2)])
+            m = R.prove('resolve_document', o, z3.And(ok_a, ok_b), 'every spread site can apply')
+            if m is not None:
+                ev = lambda x: m.eval(x, model_completion=True)
+                out.append(dict(kernel='resolve_document', prop='C06', what='a document with a spread that can never apply at one of its sites is accepted',
+                                a=names[ev(ca).as_long()], b=names[ev(cb).as_long()], fragment_on=names[ev(ct).as_long()],
+                                implements=[z3.is_true(ev(x)) for x in sv['impl']], members=[z3.is_true(ev(x)) for x in sv['memb']]))
+        else:
+            R.obligations += 1
+            R.discharged += 1
+    R.sample(dict(kernel='resolve_document', paths=len(outs)))
+    return out
+
+
+def k_resolve_selection_sets(R, S=2):
+    """`query::resolve` on   query Q { a { s_1 .. s_S } }   fragment F on T { f }
+    where a's type and T are symbolic composites, every s_i is symbolically a field (free name), a spread (free fragment
+    name) or an inline fragment (free type name) with `{ __typename }`, and f is a field with a free name.
+    Ok => the document is valid by the rule catalogue (fields exist, fragments / types are defined, conditions can apply,
+    `__typename` is selected on abstract types)."""
+    cands_fn = [fn for n, fn in R.L.funcs.items() if (n == 'resolve' or n.endswith('::resolve')) and len(fn.params) == 2 and 'Schema' in fn.params[0][1]]
+    if len(cands_fn) != 1:
+        raise V.Unsupported('query::resolve not found')
+    f = cands_fn[0]
+    out = []
+    holder = {}
+    sk = [z3.BitVec(f'rs_k{i}', 8) for i in range(S)]            # 0 field, 1 spread, 2 inline
+    nm = [z3.String(f'rs_n{i}') for i in range(S)]              # field / fragment / type name of selection i
+    nf = z3.String('rs_nf')                                     # the field selected inside F
+
+    def setup(st, B):
+        schema0, sv = abstract_schema(B, st, 'rs_')
+        pa, ca = sym_composite(B, st, 'rs_a')
+        ts, ct = sym_composite(B, st, 'rs_t')
+        holder.update(sv=sv, ca=ca, ct=ct)
+        for k_ in sk:
+            st.pc.append(z3.ULT(k_, 3))
+        names = R.L.structs['Schema']
+        fs = list(schema0.fields)
+        scal = B.variant('TypeId', 'Scalar', B.newtype('ScalarId', bv(0, 64)))
+        mkf = lambda nm_, ty, parent: B.struct('StoredField', name=StrV(nm_), type=B.struct('StoredFieldType', id=ty, qualifiers=VecV(())), parent=parent, deprecation=none())
+        po = lambda i: B.variant('StoredFieldParent', 'Object', B.newtype('ObjectId', bv(i, 32)))
+        pi = B.variant('StoredFieldParent', 'Interface', B.newtype('InterfaceId', bv(0, 64)))
+        fields = [mkf('a', pa, po(2)), mkf('x', scal, po(0)), mkf('x', scal, po(1)), mkf('x', scal, pi)]
+        fs[names.index('stored_fields')] = VecV(fields)
+        fid = lambda i: B.newtype('StoredFieldId', bv(i, 64))
+        objs = []
+        for i, ob in enumerate(fs[names.index('stored_objects')].items):
+            so = R.L.structs['StoredObject']
+            of = list(ob.fields)
+            of[so.index('fields')] = VecV([fid(1 + i)])
+            objs.append(Agg(None, of, 'StoredObject'))
+        objs.append(B.struct('StoredObject', name=StrV('Query'), fields=VecV([fid(0)]), implements_interfaces=VecV(())))
+        fs[names.index('stored_objects')] = VecV(objs)
+        iface = fs[names.index('stored_interfaces')].items[0]
+        si = R.L.structs['StoredInterface']
+        ifl = list(iface.fields)
+        ifl[si.index('fields')] = VecV([fid(3)])
+        fs[names.index('stored_interfaces')] = VecV([Agg(None, ifl, 'StoredInterface')])
+        tk = R.L.enums['TypeId']
+        fs[names.index('names')] = B.btreemap([(StrV('T'), ts), (StrV('O0'), B.variant('TypeId', 'Object', B.newtype('ObjectId', bv(0, 32)))),
+                                               (StrV('O1'), B.variant('TypeId', 'Object', B.newtype('ObjectId', bv(1, 32)))),
+                                               (StrV('I0'), B.variant('TypeId', 'Interface', B.newtype('InterfaceId', bv(0, 64)))),
+                                               (StrV('U0'), B.variant('TypeId', 'Union', B.newtype('UnionId', bv(0, 64))))])
+        fs[names.index('query_type')] = some(B.newtype('ObjectId', bv(2, 32)))
+        schema = Agg(None, fs, 'Schema')
+        pos = Agg(None, [bv(0, 64), bv(0, 64)])
+        sset = lambda items: B.struct('query::SelectionSet', span=Agg(None, [pos, pos]), items=VecV(items))
+        field_v = lambda name, items: B.struct('query::Field', position=pos, alias=none(), name=name, arguments=VecV(()), directives=VecV(()), selection_set=sset(items))
+        psel = R.L.enums['query::Selection']
+        tn_field = Agg(psel.index('Field'), [field_v(StrV('__typename'), [])], 'query::Selection')
+        sels = []
+        for i in range(S):
+            spread_v = B.struct('query::FragmentSpread', position=pos, fragment_name=StrV(nm[i]), directives=VecV(()))
+            inline_v = B.struct('query::InlineFragment', position=pos, type_condition=some(B.variant('query::TypeCondition', 'On', StrV(nm[i]))), directives=VecV(()),
+                                selection_set=sset([tn_field]))
+            d = z3.If(sk[i] == 0, bv(psel.index('Field'), 8), z3.If(sk[i] == 1, bv(psel.index('FragmentSpread'), 8), bv(psel.index('InlineFragment'), 8)))
+            sels.append(SymEnum(d, {psel.index('Field'): (field_v(StrV(nm[i]), []),), psel.index('FragmentSpread'): (spread_v,), psel.index('InlineFragment'): (inline_v,)}))
+        a_field = Agg(psel.index('Field'), [field_v(StrV('a'), sels)], 'query::Selection')
+        op = B.variant('query::Definition', 'Operation', B.variant('query::OperationDefinition', 'Query',
+                       B.struct('query::Query', position=pos, name=some(StrV('Q')), variable_definitions=VecV(()), directives=VecV(()), selection_set=sset([a_field]))))
+        frag = B.variant('query::Definition', 'Fragment', B.struct('query::FragmentDefinition', position=pos, name=StrV('F'), type_condition=B.variant('query::TypeCondition', 'On', StrV('T')),
+                                                                  directives=VecV(()), selection_set=sset([Agg(psel.index('Field'), [field_v(StrV(nf), [])], 'query::Selection')])))
+        doc = B.struct('query::Document', definitions=VecV([op, frag]))
+        R.vm.push_call(st, f, [B.cell(schema), B.cell(doc)], None, None)
+    outs, _ = R.explore(f'query::resolve(selection sets, {S} selections)', setup)
+    sv, ca, ct = holder.get('sv'), holder.get('ca'), holder.get('ct')
+    names = ['O0', 'O1', 'I0', 'U0']
+    S_ = z3.StringVal
+
+    def code_of_name(n):
+        """composite code of a type name (or -1)"""
+        return z3.If(n == S_('T'), z3.BV2Int(ct), z3.If(n == S_('O0'), 0, z3.If(n == S_('O1'), 1, z3.If(n == S_('I0'), 2, z3.If(n == S_('U0'), 3, -1)))))
+
+    def applicable(pc_, cc_int):
+        # parent code (bv) vs condition code (int)
+        conds = []
+        for cval in range(4):
+            cbv = bv(cval, 8)
+            conds.append(z3.And(cc_int == cval, z3.Or(pc_ == cbv, *[z3.And(possible(pc_, ob, sv), possible(cbv, ob, sv)) for ob in range(2)])))
+        return z3.Or(*conds)
+    for o in outs:
+        if o.kind != 'return':
+            if o.kind not in ('panic',):
+                R.inconclusive.append(f'resolve(selection sets): {o.kind}: {o.msg}')
+            continue
+        v = o.value
+        if isinstance(v, SymEnum):
+            R.inconclusive.append('resolve(selection sets): symbolic Result')
+            continue
+        if v.variant != 0:
+            R.obligations += 1
+            R.discharged += 1
+            continue
+        tn = S_('__typename')
+        a_abstract = z3.UGE(ca, 2)
+        t_abstract = z3.UGE(ct, 2)
+        valid = []
+        for i in range(S):
+            field_ok = z3.Or(nm[i] == tn, z3.And(nm[i] == S_('x'), ca != 3))
+            spread_ok = z3.And(nm[i] == S_('F'), applicable(ca, z3.BV2Int(ct)))
+            cc = code_of_name(nm[i])
+            inline_ok = z3.And(cc >= 0, applicable(ca, cc))
+            valid.append(z3.If(sk[i] == 0, field_ok, z3.If(sk[i] == 1, spread_ok, inline_ok)))
+        f_has_tn = nf == tn
+        valid.append(z3.Or(f_has_tn, z3.And(nf == S_('x'), ct != 3)))                      # F's own field exists on T
+        valid.append(z3.Implies(t_abstract, f_has_tn))                                    # abstract fragment selects __typename
+        has_tn = z3.Or(*[z3.Or(z3.And(sk[i] == 0, nm[i] == tn), z3.And(sk[i] == 1, nm[i] == S_('F'), ct == ca, f_has_tn)) for i in range(S)])
+        valid.append(z3.Implies(a_abstract, has_tn))
+        m = R.prove('resolve_selection_sets', o, z3.And(*valid), 'accepted document is valid')
+        if m is not None:
+            ev = lambda x: m.eval(x, model_completion=True)
+            sels = []
+            for i in range(S):
+                k_ = ev(sk[i]).as_long()
+                n_ = ev(nm[i]).as_string()
+                sels.append(n_ if k_ == 0 else ('...' + n_ if k_ == 1 else f'... on {n_} {{ __typename }}'))
+            failing = [j for j, c in enumerate(valid) if not z3.is_true(ev(c))]
+            out.append(dict(kernel='resolve_selection_sets', prop='C06', what='an invalid document is accepted', a=names[ev(ca).as_long()], fragment_on=names[ev(ct).as_long()],
+                            selections=sels, fragment_field=ev(nf).as_string(), implements=[z3.is_true(ev(x)) for x in sv['impl']], members=[z3.is_true(ev(x)) for x in sv['memb']],
+                            failing_rule=failing))
+    R.sample(dict(kernel='resolve_selection_sets', selections=S, paths=len(outs)))
+    return out
